@@ -113,6 +113,10 @@ def make_driver():
             new.attrib["results"] = texts
             return new
 
+        # the same job declared with job-level environment variables (the documented `envars=` parameter of Job)
+        calcenv = Job(return_files=("result.txt",), envars={"VF_JOB_LEVEL": "declared", "OMP_NUM_THREADS": "1"}).prep(calc._prep).post(calc._post)
+        calcenv_ens = Job.vectorize(calcenv).reduce(calc_ens._reduce)
+
         # post-processor that only reads stdout (never notices by itself that the run failed); the file it asks back is one of its
         # own input files, so "every requested file exists" holds as soon as the scratch directory is populated
         @Job(return_files=("param.txt",)).prep
@@ -233,7 +237,7 @@ def check(r) -> list[Fail]:
                         dst[k] = m
                         model_dst[k] = "PRE " + k
         drv = make_driver()
-        jobname = ("lenient" if r["lenient"] else "calc") + ("_ens" if vec else "")
+        jobname = ("lenient" if r["lenient"] else "calcenv" if r.get("jobenv") else "calc") + ("_ens" if vec else "")
         cache_dir = os.path.join(d, "cache")
         scratch = os.path.join(d, "scratch")
         if r.get("relcache"):
@@ -412,6 +416,8 @@ def classify(r):
     lab.append("input_files=str" if r.get("strfiles") else "input_files=bytes")
     if r.get("plain") and not r["vec"]:
         lab.append("destination=generic_Collection_with_falsy_values")
+    if r.get("jobenv") and not r["lenient"]:
+        lab.append("job_declares_envars")
     if r.get("dotkeys"):
         lab.append("keys_with_dots")
     if r["vec"] and r.get("reduce_first"):
@@ -442,7 +448,7 @@ def strat(tier):
         "pre_source_keys": st.lists(st.integers(0, 9), max_size=2), "n_foreign": st.sampled_from([0, 0, 1, 2]),
         "runs": st.lists(run, min_size=2, max_size=3 if tier == "quick" else 4),
         "posargs": st.booleans(), "strfiles": st.booleans(), "dotkeys": st.booleans(), "relcache": st.booleans(), "plain": st.sampled_from([False, False, True]),
-        "reduce_first": st.sampled_from([False, True]),
+        "reduce_first": st.sampled_from([False, True]), "jobenv": st.sampled_from([False, False, True]),
     })
 
 
